@@ -1,0 +1,28 @@
+//go:build verif
+// +build verif
+
+package tars
+
+// Verification hooks (build tag verif only): trigger the keep-alive ping of every adapter of a proxy (the real
+// doKeepAlive, normally driven by a ticker of half the idle timeout or by the endpoint manager's status check), and read
+// the proxy's timeout in ms.
+
+// VerifC08KeepAlive calls doKeepAlive on every adapter of s that has served a call; it returns how many it called.
+func VerifC08KeepAlive(s *ServantProxy) int {
+	n := 0
+	em, ok := s.manager.(*endpointManager)
+	if !ok || em.epList == nil {
+		return 0
+	}
+	em.epList.Range(func(_, v interface{}) bool {
+		if adp, ok := v.(*AdapterProxy); ok && adp.servantProxy != nil {
+			adp.doKeepAlive()
+			n++
+		}
+		return true
+	})
+	return n
+}
+
+// VerifC08ProxyTimeout returns the proxy's call timeout in ms.
+func VerifC08ProxyTimeout(s *ServantProxy) int { return s.timeout }
